@@ -31,6 +31,31 @@ def harness_corr(outcome, sub, what, tier, seed, extra_args=()):
     return st
 
 
+def kernel_crosscheck(outcome, name, imports, expr, cases):
+    """Extraction is in the trusted base of the correspondence.  Cross-check it: the results the extracted OCaml gave on a sample
+    of cases are written into a Coq file as one boolean goal that Coq's own evaluator (vm_compute) must reduce to true.
+    `expr` is a Gallina function (bytes -> bytes * bool) as text; `cases` a list of (input bytes, output bytes, ok)."""
+    d = os.path.join(common.BUILD, "xcheck")
+    os.makedirs(d, exist_ok=True)
+
+    def lst(b):
+        return "[" + "; ".join(str(x) for x in b) + "]%N"
+    src = os.path.join(d, "Xc_%s_%s.v" % (outcome.pid, name))
+    with open(src, "w") as f:
+        f.write("From XtModel Require Import %s.\n" % imports)
+        f.write("Definition beq (a b : bytes) : bool := if list_eq_dec N.eq_dec a b then true else false.\n")
+        f.write("Definition run : bytes -> bytes * bool := %s.\n" % expr)
+        f.write("Definition cases : list (bytes * bytes * bool) := [\n  %s\n].\n"
+                % ";\n  ".join("(%s, %s, %s)" % (lst(i), lst(o), "true" if k else "false") for i, o, k in cases))
+        f.write("Goal forallb (fun c : bytes * bytes * bool => let '(i, o, k) := c in let r := run i in beq (fst r) o && Bool.eqb (snd r) k) cases = true.\n")
+        f.write("Proof. vm_compute. reflexivity. Qed.\n")
+    rc, out = common.run(["coqc", "-Q", os.path.join(common.COQ, "theories"), "XtModel", src], cwd=d, timeout=900)
+    outcome.extra.setdefault("extraction_crosscheck", {})[name] = {"cases": len(cases), "kernel_agrees": rc == 0}
+    if rc != 0:
+        outcome.disagreements.append({"what": "the extracted OCaml model and Coq's own evaluator (vm_compute) disagree on a sampled case (%s): "
+                                              "extraction cannot be trusted" % name, "log": out[-1500:]})
+
+
 def msgpack_correspondence(outcome, tier, seed, oracle=True):
     """Model/implementation correspondence of the MessagePack model (size calculator, both document loops with the writer's
     bytes, detection trial).  oracle=False: the harness's own slice-vs-reader comparison is another property's business."""
@@ -49,6 +74,20 @@ def msgpack_correspondence(outcome, tier, seed, oracle=True):
     }
     for s in st["samples"]:
         outcome.add_sample(s)
+    if tier == "thorough":
+        # sample the MT cases the driver just answered and have the kernel re-evaluate them
+        rundir = os.path.join(common.BUILD, "run", outcome.pid + "_msgpack")
+        cases, model = open(os.path.join(rundir, "cases.txt")).read().split("\n"), open(os.path.join(rundir, "model.txt")).read().split("\n")
+        picked = []
+        for c, m in zip(cases, model):
+            f = c.split(" ")
+            if len(f) == 4 and f[0] == "MT" and f[2] == "S" and len(f[3]) <= 120:
+                mf = m.split(" ")
+                if len(mf) == 4 and mf[1] in ("ok", "err"):
+                    picked.append((bytes.fromhex(f[3]) if f[3] != "-" else b"", bytes.fromhex(mf[3]) if mf[3] != "-" else b"", mf[1] == "ok"))
+        step = max(1, len(picked) // 200)
+        kernel_crosscheck(outcome, "msgpack_slice_loop", "Base Utf8 MsgpackModel",
+                          "fun i => let r := transcode_slice utf8_valid i in (mm_output r, mm_ok r)", picked[::step][:200])
     return st
 
 
